@@ -322,6 +322,7 @@ fn solid_cfg_text(c: &Cfg, o: &Obs) -> String {
 struct Tables {
     v: Vec<(Vec<u8>, Vec<u8>)>, // PHSF -> key
     d: Vec<(Vec<u8>, Vec<u8>)>, // compressed stream -> plain
+    dk: Vec<(Vec<u8>, String)>,  // stream the decompressor rejects -> "!Kind" (hostile cases only)
 }
 impl Tables {
     fn note(&mut self, cfg: &Cfg, o: &Obs) -> Result<(), String> {
@@ -347,10 +348,10 @@ impl Tables {
         }
     }
     fn dtext(&self) -> String {
-        if self.d.is_empty() {
+        if self.d.is_empty() && self.dk.is_empty() {
             "-".into()
         } else {
-            self.d.iter().map(|(s, p)| format!("{}:{}", hex_item(s), hex_item(p))).collect::<Vec<_>>().join(",")
+            self.d.iter().map(|(s, p)| format!("{}:{}", hex_item(s), hex_item(p))).chain(self.dk.iter().map(|(s, k)| format!("{}:{}", hex_item(s), k))).collect::<Vec<_>>().join(",")
         }
     }
 }
@@ -902,6 +903,9 @@ fn run_decode(c: &Case, oracle: &mut Vec<String>) -> String {
     if out != again {
         oracle.push("C01: the decoded entries depend on the read buffer sizes".to_string());
     }
+    if out.contains("PANIC") || again.contains("PANIC") {
+        oracle.push("C07: the decode pipeline panicked".to_string());
+    }
     // C03: another framing of the same data chunks (sixth argument) decodes to the same entries, contents and errors
     match arg(c, 5) {
         "" | "-" => {}
@@ -1287,6 +1291,199 @@ fn emit_recut(r: &mut Rng, items: &[Item], pw: &str, bufs: &[usize], short: Opti
     vec![format!("decode\t{}\t{}\t{}\t{}\t{}\t{}", hex_item(&first), tabs.vtext(), tabs.dtext(), show_bufs(bufs), if encrypted { pwh } else { "-".to_string() }, hex_item(&second))]
 }
 
+// ------------------------------------------------------------------------------------------ C07: hostile data
+/// the decompressor as libpna drives it (entry/read.rs decompress_reader: the same reader types over the same
+/// bytes), run directly on a byte stream: the oracle-table entry for a stream no writer produced
+fn stream_decompress(comp: u8, stream: &[u8]) -> Result<Vec<u8>, String> {
+    let s = stream.to_vec();
+    let r = guard(move || -> io::Result<Vec<u8>> {
+        let mut out = Vec::new();
+        match comp {
+            1 => flate2::read::ZlibDecoder::new(&s[..]).read_to_end(&mut out)?,
+            2 => zstd::Decoder::new(&s[..])?.read_to_end(&mut out)?,
+            4 => liblzma::read::XzDecoder::new(&s[..]).read_to_end(&mut out)?,
+            _ => {
+                out = s.clone();
+                0
+            }
+        };
+        Ok(out)
+    });
+    match r {
+        Ok(Ok(v)) => Ok(v),
+        Ok(Err(e)) => Err(bang(&e)),
+        Err(()) => Err("!PANIC".to_string()),
+    }
+}
+/// the archive with every run of consecutive FDAT (resp. SDAT) chunks replaced by `f(run)` and re-cut with `cuts`
+fn transform_runs(bytes: &[u8], cuts: &[usize], f: &mut dyn FnMut(Vec<u8>) -> Vec<u8>) -> Result<Vec<u8>, String> {
+    let cs = refdec::part_chunks(bytes).map_err(|w| format!("{}: {}", w.0, w.1))?;
+    let mut out = refdec::SIG.to_vec();
+    let mut run: Option<([u8; 4], Vec<u8>)> = None;
+    for c in cs {
+        let is_data = &c.ty == b"FDAT" || &c.ty == b"SDAT";
+        if let Some((rty, buf)) = &mut run {
+            if is_data && *rty == c.ty {
+                buf.extend_from_slice(&c.data);
+                continue;
+            }
+        }
+        if let Some((ty, buf)) = run.take() {
+            let nb = f(buf);
+            for p in cut_by(cuts, &nb) {
+                put_chunk(&mut out, &ty, &p);
+            }
+        }
+        if is_data {
+            run = Some((c.ty, c.data));
+        } else {
+            put_chunk(&mut out, &c.ty, &c.data);
+        }
+    }
+    Ok(out)
+}
+/// walk the (mutated) archive: is every entry in the part of the configuration space where the model predicts the
+/// outcome on hostile data (see emit_hostile), and which decompressor-table entries do the garbage streams need
+fn hostile_tables(bytes: &[u8], tabs: &mut Tables) -> Result<bool, String> {
+    let cs = refdec::part_chunks(bytes).map_err(|w| format!("{}: {}", w.0, w.1))?;
+    let mut cur: Option<(bool, u8, u8, u8)> = None;
+    let mut phsf: Option<Vec<u8>> = None;
+    let mut data: Vec<u8> = Vec::new();
+    for c in cs {
+        match &c.ty {
+            b"FHED" if c.data.len() >= 6 => {
+                cur = Some((false, c.data[3], c.data[4], c.data[5]));
+                phsf = None;
+                data.clear();
+            }
+            b"SHED" if c.data.len() >= 5 => {
+                cur = Some((true, c.data[2], c.data[3], c.data[4]));
+                phsf = None;
+                data.clear();
+            }
+            b"PHSF" => phsf = Some(c.data.clone()),
+            b"FDAT" | b"SDAT" => data.extend_from_slice(&c.data),
+            b"FEND" | b"SEND" => {
+                if let Some((solid, comp, enc, mode)) = cur.take() {
+                    let cbc = enc != 0 && mode == 0;
+                    if solid && (comp != 0 || cbc) {
+                        return Ok(false);
+                    }
+                    if comp != 0 {
+                        if cbc {
+                            return Ok(false);
+                        }
+                        let plain = if enc == 0 {
+                            Some(data.clone())
+                        } else {
+                            // CTR: the decompressor sees the keystream-xored bytes behind the 16-byte IV
+                            let key = phsf.as_ref().and_then(|p| tabs.v.iter().find(|(q, _)| q == p).map(|(_, k)| k.clone()));
+                            match key {
+                                Some(k) if data.len() >= 16 => {
+                                    let b = refdec::Block::new(enc, &k)?;
+                                    Some(refdec::ctr_xor(&b, &data[..16], &data[16..]))
+                                }
+                                _ => None,
+                            }
+                        };
+                        if let Some(pl) = plain {
+                            if !tabs.d.iter().any(|(s, _)| *s == pl) {
+                                match stream_decompress(comp, &pl) {
+                                    Ok(v) => tabs.d.push((pl, v)),
+                                    Err(k) => tabs.dk.push((pl, k)),
+                                }
+                            }
+                        }
+                    }
+                }
+            }
+            _ => {}
+        }
+    }
+    Ok(true)
+}
+/// one decode case on what the scenario's writers produced with the DATA of every entry damaged (the chunk framing
+/// stays valid: hostile framing is the archive area's business): bytes flipped, the stream cut anywhere, garbage
+/// appended, the whole stream replaced, blocks duplicated or dropped.  Generated where the model predicts the outcome:
+/// stored entries under every cipher and mode (the real AES/Camellia are inside the model), compressed entries that
+/// are unencrypted or CTR-encrypted (the decompressor's verdict on the garbage is an oracle-table entry computed with
+/// the same reader types libpna uses), stored solid entries unencrypted or CTR.  Compressed + CBC and compressed solid
+/// streams are left out: a streaming decompressor that stops early never sees the padding error, and yields entries
+/// before a mid-stream error, neither of which the model's decode-then-decompress order expresses.
+fn emit_hostile(r: &mut Rng, items: &[Item], pw: &str, bufs: &[usize]) -> Vec<String> {
+    let mut tabs = Tables::default();
+    let (bytes, _texts) = match produce(items, pw, &mut tabs) {
+        Ok(x) => x,
+        Err(_) => return Vec::new(),
+    };
+    let cuts = gen_cuts(r);
+    let how = r.below(8);
+    let mut rr = r.clone();
+    let mut f = |mut b: Vec<u8>| -> Vec<u8> {
+        let n = b.len();
+        match how {
+            0 => {
+                // flip one to three bytes
+                for _ in 0..rr.range(1, 3) {
+                    if n > 0 {
+                        let i = rr.below(n as u64) as usize;
+                        b[i] ^= 1 << rr.below(8);
+                    }
+                }
+                b
+            }
+            1 => {
+                b.truncate(rr.below(n as u64 + 1) as usize);
+                b
+            }
+            2 => {
+                let extra = rr.range(1, 40) as usize;
+                b.extend(rr.bytes(extra));
+                b
+            }
+            3 => rr.bytes(n),
+            4 => {
+                // duplicate a 16-byte block
+                if n >= 32 {
+                    let i = 16 * rr.below((n / 16) as u64) as usize;
+                    let blk = b[i..(i + 16).min(n)].to_vec();
+                    let mut o = b[..i].to_vec();
+                    o.extend(&blk);
+                    o.extend(&b[i..]);
+                    o
+                } else {
+                    b
+                }
+            }
+            5 => b.split_off(16.min(n)), // the IV (or the first block) is gone
+            6 => {
+                // the last block damaged: CBC padding errors of every shape
+                if n > 0 {
+                    let i = n - 1 - rr.below(16.min(n) as u64) as usize;
+                    b[i] = rr.next() as u8;
+                }
+                b
+            }
+            _ => {
+                let m = rr.below(50) as usize;
+                rr.bytes(m)
+            }
+        }
+    };
+    let mutated = match transform_runs(&bytes, &cuts, &mut f) {
+        Ok(m) => m,
+        Err(_) => return Vec::new(),
+    };
+    *r = rr;
+    match hostile_tables(&mutated, &mut tabs) {
+        Ok(true) => {}
+        _ => return Vec::new(),
+    }
+    let encrypted = !tabs.v.is_empty();
+    let pwh = hex_item(pw.as_bytes());
+    vec![format!("decode\t{}\t{}\t{}\t{}\t{}", hex_item(&mutated), tabs.vtext(), tabs.dtext(), show_bufs(bufs), if encrypted { pwh } else { "-".to_string() })]
+}
+
 /// every scenario gives a writer case and a decode case; every fourth one a second decode case (no password, or
 /// a wrong one) — the number of cases depends on the tier only
 fn emit(r: &mut Rng, op: &str, items: &[Item], pw: &str, bufs: &[usize], idx: usize) -> Vec<String> {
@@ -1368,6 +1565,25 @@ fn gen(prop: &str, tier: &str, seed: u64) -> Vec<String> {
     let mut v = Vec::new();
     let mut k = r.below(200) as usize;
     let mut idx = 0;
+    if prop == "C07" {
+        // hostile data through the reader only: 80 / 2500 decode cases (scenarios whose configuration the model does
+        // not predict on hostile data are skipped, so the loop runs until the count is reached)
+        let want = if thorough { 2500 } else { 80 };
+        let mut tries = 0;
+        while v.len() < want && tries < 20 * want {
+            tries += 1;
+            let c = if tries % 6 == 0 {
+                let (items, pw, bufs) = scenario_arch_items(&mut r, k);
+                emit_hostile(&mut r, &items, &pw, &bufs)
+            } else {
+                let (_, items, pw, bufs) = scenario_items(&mut r, k, false);
+                emit_hostile(&mut r, &items, &pw, &bufs)
+            };
+            v.extend(c);
+            k += 1;
+        }
+        return v;
+    }
     if prop == "C03" {
         // re-cut archives through the reader only: 44 + 10 + 15 / 2400 + 400 + 600 decode cases
         let (n_grid, n_arch, n_short) = if thorough { (2400, 400, 600) } else { (44, 10, 15) };
